@@ -157,10 +157,17 @@ const vC13Greedy = MaxMatchingBytes - 150
 const vC13Long = 3000 // bytes a matcher wants to see of an 'L' stream (more than one prefetch chunk)
 const vC13Prefix = 5  // bytes the non-terminal 'N' handler consumes
 
-type vKindMatcher struct{ kind byte }
+type vKindMatcher struct {
+	kind byte
+	need int // bytes it wants to see (0: vC13Need); routes differ so that one can say no while another still waits
+}
 
 func (m vKindMatcher) Match(cx *Connection) (bool, error) {
-	b := make([]byte, vC13Need)
+	need := m.need
+	if need == 0 {
+		need = vC13Need
+	}
+	b := make([]byte, need)
 	if _, err := io.ReadFull(cx, b); err != nil {
 		return false, err
 	}
@@ -210,6 +217,7 @@ type vScConn struct {
 	segs    []int // write sizes
 	gapUs   int   // pause between writes
 	startUs int   // when the client dials, relative to scenario start
+	tailUs  int   // pause before the last segment (a client that is still sending after matching ended)
 }
 
 func vC13Stream(kind byte, id, n int) []byte {
@@ -233,14 +241,14 @@ func vIDOf(hdr []byte) int { return int(hdr[1])<<8 | int(hdr[2]) }
 
 func (k *vScConn) hijack() bool {
 	switch k.kind {
-	case 'F', 'N', 'S', 'L', 'M', 'P', 'Q', 'G':
+	case 'F', 'N', 'S', 'L', 'M', 'P', 'Q', 'G', 'D':
 		return true
 	}
 	return false
 }
 
 func (k *vScConn) consumed() int {
-	if k.kind == 'N' || k.kind == 'Q' {
+	if k.kind == 'N' || k.kind == 'Q' || k.kind == 'D' {
 		return vC13Prefix
 	}
 	return 0
@@ -248,9 +256,9 @@ func (k *vScConn) consumed() int {
 
 func (k *vScConn) outcome() string {
 	switch k.kind {
-	case 'F', 'N', 'S', 'L', 'M', 'P', 'Q', 'G':
+	case 'F', 'N', 'S', 'L', 'M', 'P', 'Q', 'G', 'D':
 		return "Hijack"
-	case 'T', 'H':
+	case 'T', 'H', 'U':
 		return "Consumed"
 	}
 	return "Rejected"
@@ -258,7 +266,7 @@ func (k *vScConn) outcome() string {
 
 func vC13Routes(sc *vScen) RouteList {
 	mk := func(kind byte, h NextHandler) *Route {
-		return &Route{matcherSets: MatcherSets{{vKindMatcher{kind}}}, middleware: []Middleware{wrapHandler(h)}}
+		return &Route{matcherSets: MatcherSets{{vKindMatcher{kind: kind}}}, middleware: []Middleware{wrapHandler(h)}}
 	}
 	terminal := NextHandlerFunc(func(cx *Connection, _ Handler) error {
 		hdr := make([]byte, 3)
@@ -266,7 +274,13 @@ func vC13Routes(sc *vScen) RouteList {
 			return nil
 		}
 		if k := sc.byTag[vIDOf(hdr)]; k != nil {
-			_, _ = io.ReadFull(cx, make([]byte, len(k.stream)-3))
+			rest := len(k.stream) - 3
+			if k.kind == 'U' {
+				// a terminal handler need not read its connection to the end: it leaves enough for
+				// every later route to decide (they must not be asked any more)
+				rest -= vC13Prefix + 3*vC13Need
+			}
+			_, _ = io.ReadFull(cx, make([]byte, rest))
 		}
 		return nil
 	})
@@ -303,10 +317,18 @@ func vC13Routes(sc *vScen) RouteList {
 		return &Route{matcherSets: MatcherSets{ms}, middleware: []Middleware{wrapHandler(h)}}
 	}
 	return RouteList{
-		multi(MatcherSet{vKindMatcher{'M'}, vConstMatcher{false}}, never),
-		multi(MatcherSet{vKindMatcher{'P'}, vPeekMatcher{'P'}, vConstMatcher{true}}, passOn),
-		multi(MatcherSet{vKindMatcher{'Q'}, vConstMatcher{true}, vPeekMatcher{'Q'}}, nonTerminal),
-		mk('T', terminal), mk('R', reject), mk('N', nonTerminal), mk('K', nonTerminal), mk('S', tlsLike), mk('E', never), mk('H', held)}
+		multi(MatcherSet{vKindMatcher{kind: 'M'}, vConstMatcher{false}}, never),
+		multi(MatcherSet{vKindMatcher{kind: 'P'}, vPeekMatcher{'P'}, vConstMatcher{true}}, passOn),
+		multi(MatcherSet{vKindMatcher{kind: 'Q'}, vConstMatcher{true}, vPeekMatcher{'Q'}}, nonTerminal),
+		// 'U': a non-terminal route whose matcher wants more bytes than the others, placed in front of
+		// the terminal 'T' route: what is left of a 'U' stream after the handler took its prefix is a
+		// 'T' stream, so the connection must be consumed by the terminal route, whatever that route
+		// said about the untransformed bytes while 'U' was still waiting for data
+		multi(MatcherSet{vKindMatcher{kind: 'U', need: vC13Prefix + 1}}, nonTerminal),
+		mk('D', nonTerminal),
+		mk('T', terminal), mk('R', reject), mk('N', nonTerminal), mk('K', nonTerminal), mk('S', tlsLike), mk('E', never), mk('H', held),
+		// a last route that wants to see 8 bytes before it says no: keeps "needs more" alive behind the others
+		multi(MatcherSet{vKindMatcher{kind: 'y', need: 2 * vC13Need}}, never)}
 }
 
 // ---- scenario generation ------------------------------------------------------------------------
@@ -319,7 +341,7 @@ func (sc *vScen) add(k *vScConn) {
 
 func vC13Gen(r *vRng) *vScen {
 	n := 2 + r.Intn(9)
-	kinds := []byte{'F', 'F', 'F', 'T', 'R', 'N', 'S', 'E', 'L', 'X', 'Z', 'F', 'T', 'N', 'H', 'M', 'P', 'Q', 'M', 'G', 'K'}
+	kinds := []byte{'F', 'F', 'F', 'T', 'R', 'N', 'S', 'E', 'L', 'X', 'Z', 'F', 'T', 'N', 'H', 'M', 'P', 'Q', 'M', 'G', 'K', 'U', 'U', 'D'}
 	sc := &vScen{byID: map[int]*vScConn{}, byTag: map[int]*vScConn{}, release: make(chan struct{})}
 	for i := 0; i < n; i++ {
 		k := &vScConn{id: i + 1, tag: int(vC13Tag.Add(1)) & 0x7fff, kind: kinds[r.Intn(len(kinds))]}
@@ -329,6 +351,8 @@ func vC13Gen(r *vRng) *vScen {
 			ln = vC13Long + r.Intn(1500)
 		case 'G':
 			ln = MaxMatchingBytes + 300 + r.Intn(3000)
+		case 'U', 'D':
+			ln = 6*vC13Need + vC13Prefix + r.Intn(60)
 		case 'K':
 			// the non-terminal handler takes its prefix, then the client stays silent with fewer
 			// bytes left than the later routes want: matching has to time out a second time
@@ -345,11 +369,28 @@ func vC13Gen(r *vRng) *vScen {
 			ln = vC13Prefix + vC13Need + 4
 		}
 		k.stream = vC13Stream(k.kind, k.tag, ln)
+		if k.kind == 'U' {
+			// behind the prefix: a 'T' stream with this connection's tag
+			k.stream[vC13Prefix], k.stream[vC13Prefix+1], k.stream[vC13Prefix+2] = 'T', byte(k.tag>>8), byte(k.tag)
+		}
 		if k.kind == 'X' || k.kind == 'Z' {
 			k.stream[0] = 'F' // looks like a fall-through stream but never completes the first read
 		}
 		// segmentation
 		rest := ln
+		switch {
+		case k.kind == 'U' && r.Intn(3) > 0:
+			// a first segment on which the terminal route can already say no, this route not yet
+			first := vC13Need + r.Intn(2)
+			k.segs = append(k.segs, first, rest-first)
+			rest = 0
+			k.gapUs = 200 + r.Intn(400)
+		case k.kind == 'D':
+			// prefix plus too little for the later routes, a bit more, and a tail long after matching ended
+			k.segs = append(k.segs, vC13Prefix+2, rest-vC13Prefix-2-8, 8)
+			rest = 0
+			k.tailUs = 230000
+		}
 		if k.kind == 'G' || (ln > 4096 && r.Intn(2) == 0) {
 			// not aligned with the prefetch chunk: a short first segment, then whole chunks
 			first := 1 + r.Intn(prefetchChunkSize-1)
@@ -380,7 +421,9 @@ func vC13Gen(r *vRng) *vScen {
 			k.segs = append(k.segs, s)
 			rest -= s
 		}
-		k.gapUs = r.Intn(300)
+		if k.gapUs == 0 {
+			k.gapUs = r.Intn(300)
+		}
 		k.startUs = r.Intn(3000)
 		sc.add(k)
 	}
@@ -397,6 +440,11 @@ type vC13Plan struct {
 	closeAtUs    int   // ... or at this time, whichever first (0: not by time)
 	tempErrs     int
 	startAccepts int // microseconds before the consumer starts accepting
+	// the consumer does not call Accept before every connection went through its handler as far as
+	// it can: connChan is full (or holds them all) and the others are blocked in the send
+	holdUntilQueued bool
+	// Close is called from another goroutine at the moment the consumer calls its first Accept
+	closeConcurrent bool
 }
 
 type vC13Result struct {
@@ -487,7 +535,10 @@ func vC13Run(sc *vScen, pl vC13Plan) *vC13Result {
 			matched.Done()
 			_ = cl.SetWriteDeadline(time.Now().Add(4 * time.Second))
 			off := 0
-			for _, s := range k.segs {
+			for si, s := range k.segs {
+				if k.tailUs > 0 && si == len(k.segs)-1 {
+					time.Sleep(time.Duration(k.tailUs) * time.Microsecond)
+				}
 				if _, err := cl.Write(k.stream[off : off+s]); err != nil {
 					break
 				}
@@ -551,7 +602,14 @@ func vC13Run(sc *vScen, pl vC13Plan) *vC13Result {
 		}
 		want := len(k.stream) - k.consumed()
 		buf := make([]byte, want)
-		_ = c.SetReadDeadline(time.Now().Add(4 * time.Second))
+		if k.tailUs > 0 {
+			// a consumer that sets no deadline of its own: the connection must come without one.
+			// (bounded by a watchdog instead)
+			wd := time.AfterFunc(4*time.Second, func() { sv.released.Store(true); _ = c.Close() })
+			defer wd.Stop()
+		} else {
+			_ = c.SetReadDeadline(time.Now().Add(4 * time.Second))
+		}
 		n, err := io.ReadFull(c, buf)
 		rmu.Lock()
 		res.readBack[k.id] = buf[:n]
@@ -626,6 +684,23 @@ func vC13Run(sc *vScen, pl vC13Plan) *vC13Result {
 	}
 
 	at(pl.startAccepts)
+	if pl.holdUntilQueued {
+		for t0 := time.Now(); time.Since(t0) < 2*time.Second; time.Sleep(100 * time.Microsecond) {
+			arr := 0
+			for _, e := range h.snapshot() {
+				if e.k == "Arr" {
+					arr++
+				}
+			}
+			if arr == len(sc.conns) && len(li.connChan) == min(len(sc.conns), cap(li.connChan)) {
+				break
+			}
+		}
+		time.Sleep(time.Millisecond) // lets the handlers beyond the capacity reach their blocked send
+	}
+	if pl.closeConcurrent {
+		go doClose()
+	}
 	expectHijack := func() int {
 		n := 0
 		for _, k := range sc.conns {
@@ -710,7 +785,12 @@ func vC13Run(sc *vScen, pl vC13Plan) *vC13Result {
 	res.hist = h.snapshot()
 	res.timedOut = map[int]bool{}
 	for _, k := range sc.conns {
-		if timedOut(k.id) {
+		srvMu.Lock()
+		sv := srvs[k.id]
+		srvMu.Unlock()
+		// excused only if THIS connection's wrapper-side read hit the matching deadline, it never
+		// reached the hand-over, and the wrapper closed it (what it does with a matching timeout)
+		if sv != nil && timedOut(k.id) && sv.closes.Load() > 0 {
 			res.timedOut[k.id] = true
 		}
 	}
@@ -894,6 +974,29 @@ func vC13Overlap() (*vScen, vC13Plan) {
 	return sc, vC13Plan{procs: 1, closeAfter: -1, readLate: true, acceptDelay: []int{0}}
 }
 
+// n fall-through connections against a channel of capacity procs, none accepted before all of
+// them are queued in connChan or blocked in the send; then Close before any Accept (mode 0), after
+// one Accept (mode 1), or concurrently with the first Accept (mode 2); the consumer keeps calling
+// Accept until the first ErrClosed.  Every connection must end up returned by Accept XOR closed.
+func vC13PendingAtClose(procs, n, mode int) (*vScen, vC13Plan) {
+	sc := &vScen{byID: map[int]*vScConn{}, byTag: map[int]*vScConn{}, release: make(chan struct{})}
+	for i := 0; i < n; i++ {
+		k := &vScConn{id: i + 1, tag: int(vC13Tag.Add(1)) & 0x7fff, kind: 'F', startUs: i * 50}
+		k.stream = vC13Stream('F', k.tag, 24+i)
+		k.segs = []int{len(k.stream)}
+		sc.add(k)
+	}
+	pl := vC13Plan{procs: procs, closeAfter: 0, holdUntilQueued: true, acceptDelay: []int{0}}
+	switch mode {
+	case 1:
+		pl.closeAfter = 1
+	case 2:
+		pl.closeAfter = -1
+		pl.closeConcurrent = true
+	}
+	return sc, pl
+}
+
 // the same with a first connection whose first prefetch fills the pooled chunk exactly (len == cap)
 func vC13OverlapBoundary() (*vScen, vC13Plan) {
 	sc, pl := vC13Overlap()
@@ -927,6 +1030,24 @@ func vC13MultiMatcher() (*vScen, vC13Plan) {
 	q.stream = vC13Stream('K', q.tag, vC13Prefix+2)
 	q.segs = []int{len(q.stream)}
 	sc.add(q)
+	// 'U' streams (non-terminal route, then the terminal route on what is left), whole and split so
+	// that the terminal route sees the raw bytes first; a 'D' stream whose client is still sending
+	// long after matching ended
+	for i, first := range []int{0, vC13Need, vC13Need + 1} {
+		u := &vScConn{id: 7 + i, tag: int(vC13Tag.Add(1)) & 0x7fff, kind: 'U', startUs: 1700 + 100*i, gapUs: 400}
+		u.stream = vC13Stream('U', u.tag, 40)
+		u.stream[vC13Prefix], u.stream[vC13Prefix+1], u.stream[vC13Prefix+2] = 'T', byte(u.tag>>8), byte(u.tag)
+		if first == 0 {
+			u.segs = []int{40}
+		} else {
+			u.segs = []int{first, 40 - first}
+		}
+		sc.add(u)
+	}
+	dd := &vScConn{id: 10, tag: int(vC13Tag.Add(1)) & 0x7fff, kind: 'D', startUs: 2000, tailUs: 230000}
+	dd.stream = vC13Stream('D', dd.tag, 48)
+	dd.segs = []int{vC13Prefix + 2, 48 - vC13Prefix - 2 - 8, 8}
+	sc.add(dd)
 	return sc, vC13Plan{procs: 2, closeAfter: -1, readLate: false, acceptDelay: []int{100}}
 }
 
@@ -1063,6 +1184,14 @@ func TestVerifC13(t *testing.T) {
 	run(sc, pl, "overlap-boundary")
 	sc, pl = vC13MultiMatcher()
 	run(sc, pl, "multi-matcher-sets")
+	for _, procs := range []int{1, 2, 4} {
+		for _, n := range []int{procs, procs + 1, procs + 3} {
+			for mode := 0; mode < 3; mode++ {
+				sc, pl = vC13PendingAtClose(procs, n, mode)
+				run(sc, pl, fmt.Sprintf("pending-at-close/mode%d", mode))
+			}
+		}
+	}
 	vC13AcceptAndClose(out)
 	for i := 0; i < n; i++ {
 		sc := vC13Gen(r)
